@@ -64,11 +64,12 @@ class Cfg:
     seed: int = 0
     structural_only: bool = False  # skip solver obligations (properties without a value quantifier)
     types_check: bool = False  # C12: static dtypes vs schema of the compiled plan / exported frames
+    cross_check_mod: int = 10  # every unsat verdict of 1/cross_check_mod of the templates is re-decided by cvc5 and z3 4.8
 
     @staticmethod
     def for_tier(tier, seed=0):
         if tier == "thorough":
-            return Cfg(tier="thorough", nmax=4, nmax2=2, str_len=4, timeout_ms=120000, validate_samples=6, seed=seed)
+            return Cfg(tier="thorough", nmax=4, nmax2=2, str_len=4, timeout_ms=120000, validate_samples=6, seed=seed, cross_check_mod=3)
         return Cfg(seed=seed)
 
 
@@ -287,6 +288,9 @@ def def_conj(b: Built, extra=()):
     return [c for _, c in b.world.defs] + list(extra)
 
 
+CROSS = {"on": False, "log": []}
+
+
 def solve(cons, timeout_ms):
     s = z3.Solver()
     s.set("timeout", timeout_ms)
@@ -295,7 +299,35 @@ def solve(cons, timeout_ms):
     t0 = time.time()
     r = s.check()
     dt = time.time() - t0
-    return str(r), (s.model() if str(r) == "sat" else None), dt
+    r = str(r)
+    if r == "unsat" and CROSS["on"]:
+        other = cross_solvers(s)
+        CROSS["log"].append(other)
+        if any(v == "sat" for v in other.values()):
+            return "unknown", None, dt  # solvers disagree: inconclusive, never a pass
+    return r, (s.model() if r == "sat" else None), dt
+
+
+def cross_solvers(s: z3.Solver, tlimit_s=60):
+    """re-decides a query with the cvc5 binary and the system z3 4.8.12 (SMT-LIB2 dump)"""
+    import subprocess
+    import tempfile
+
+    out = {}
+    with tempfile.NamedTemporaryFile("w", suffix=".smt2", delete=False, dir=os.environ.get("TMPDIR", "/tmp")) as f:
+        f.write("(set-logic ALL)\n" + s.to_smt2())
+        path = f.name
+    try:
+        for name, cmd in (("cvc5", ["cvc5", f"--tlimit={tlimit_s * 1000}", "--strings-exp", path]), ("z3-4.8", ["/usr/bin/z3", f"-T:{tlimit_s}", path])):
+            try:
+                p = subprocess.run(cmd, capture_output=True, text=True, timeout=tlimit_s + 20)
+                first = (p.stdout.strip().splitlines() or ["?"])[0]
+                out[name] = first if first in ("sat", "unsat", "unknown") and "(error" not in p.stdout else "error"
+            except Exception:  # noqa: BLE001
+                out[name] = "timeout"
+    finally:
+        os.unlink(path)
+    return out
 
 
 def names_for_compare(b: Built, a: str, c: str):
@@ -853,7 +885,10 @@ def analyse(tp: Template, cfg: Cfg, *, known=None) -> dict:
             "artefacts": {},
         }
     obls: list[Obl] = []
-    rng = random.Random(cfg.seed * 7919 + int(hashlib.sha1(tp.name.encode()).hexdigest()[:8], 16))
+    hsh = int(hashlib.sha1(tp.name.encode()).hexdigest()[:8], 16)
+    rng = random.Random(cfg.seed * 7919 + hsh)
+    CROSS["on"] = cfg.cross_check_mod > 0 and (hsh % cfg.cross_check_mod) == (cfg.seed % cfg.cross_check_mod)
+    CROSS["log"] = []
     try:
         if tp.expect == "sql-refuses":
             o = Obl(tp.name, "sql-refuses")
@@ -914,4 +949,5 @@ def analyse(tp: Template, cfg: Cfg, *, known=None) -> dict:
         "status": b.status,
         "artefacts": arte,
         "seconds": time.time() - t0,
+        "cross_solver": list(CROSS["log"]),
     }
